@@ -2391,6 +2391,12 @@ class NetCDFWrite(IOWrite):
                         self.implementation.get_data_axes(f, key),
                         extra=extra,
                     )
+                else:
+                    # No netCDF auxiliary coordinate variable has been
+                    # created (only bounds or geometry nodes), so
+                    # there is nothing for a 'coordinates' attribute
+                    # to name
+                    ncvar = None
 
         g["key_to_ncvar"][key] = ncvar
         g["key_to_ncdims"][key] = ncdimensions
